@@ -1125,7 +1125,7 @@ class Agent(dbus.service.Object):
 
             dtntime = DtnTimeField.datetime_to_dtntime(timestamp)
             # values from the peer are made to fit the signal signature
-            self.polling_received(dtntime, max(0, min(interval_ms, 2 ** 31 - 1)), str(node_id), str(conv.peer_address), conv.peer_port)
+            self.polling_received(dtntime, max(0, min(interval_ms, 2 ** 31 - 1)), str(node_id).replace('\x00', '\ufffd'), str(conv.peer_address), conv.peer_port)
 
         if ExtensionKey.TRANSFER in extmap:
             xfer_id, total_len, frag_offset, frag_data = extmap[ExtensionKey.TRANSFER]
